@@ -65,6 +65,19 @@ def rep(ctx, text, n):
     return t
 
 
+def is_b64u_app(t):
+    return z3.is_app(t) and t.decl().eq(B64U)
+
+
+def b64u_free_of(t, text):
+    """Syntactic instance of the B64U alphabet axiom: B64U(x) contains none of + / = . space (nor any non-alphabet text)."""
+    from .core import str_value
+    if not is_b64u_app(t) or not z3.is_string_value(text):
+        return False
+    s_ = str_value(text)
+    return len(s_) > 0 and any(c not in "ABCDEFGHIJKLMNOPQRSTUVWXYZabcdefghijklmnopqrstuvwxyz0123456789-_" for c in s_)
+
+
 def is_rep_of(t, ch):
     """Syntactic: t is `ch * n` or a literal made of ch only."""
     from .core import str_value
@@ -219,7 +232,7 @@ def is_ascii(ctx, s):
             if all(ord(c) < 128 for c in str_value(p)):
                 continue
             return z3.BoolVal(False)
-        if ctx.known(z3.InRe(p, ASCII_RE)) or is_rep_of(p, "="):
+        if ctx.known(z3.InRe(p, ASCII_RE)) or is_rep_of(p, "=") or is_b64u_app(p):
             continue
         ok = False
         break
